@@ -318,6 +318,13 @@ def handle (st : DState) (j : Json) : Except String (DState × Json) := do
     | .value v => pure (st, Json.mkObj [("value", Json.num (JsonNumber.fromInt v))])
     | .syntaxError => pure (st, Json.mkObj [("error", "syntax")])
     | .evalError x => pure (st, Json.mkObj [("error", evalErrJson x)])
+  | "prophyc_const" =>
+    let text ← getStr j "text"
+    let env ← envOfJson (← j.getObjVal? "env")
+    match Expr.constText env text with
+    | .value v => pure (st, Json.mkObj [("value", Json.num (JsonNumber.fromInt v))])
+    | .syntaxError => pure (st, Json.mkObj [("error", "syntax")])
+    | .evalError x => pure (st, Json.mkObj [("error", evalErrJson x)])
   | "expr_eval_ast" =>
     let ast ← astOfJson (← j.getObjVal? "ast")
     let env ← envOfJson (← j.getObjVal? "env")
